@@ -19,14 +19,16 @@
 (***************************************************************************)
 EXTENDS ArraySem, Json
 
-CONSTANTS MaxNodes,     \* bound on program length
-          MaxOps,       \* bound on number of non-leaf nodes
-          MaxLeaves,    \* bound on number of leaf nodes
-          Ops,          \* set of enabled constructor names
-          LeafSet,      \* subset of 1..Len(LeafPool) enabled
+CONSTANTS Families,     \* sequence of vocabularies [ops, leaves, maxnodes, maxops, maxleaves]; one is chosen initially
           EmitMin       \* emit only programs with at least this many non-leaf nodes
 
-VARIABLES nodes
+VARIABLES nodes, fam
+
+MaxNodes == Families[fam].maxnodes     \* bound on program length
+MaxOps == Families[fam].maxops         \* bound on number of non-leaf nodes
+MaxLeaves == Families[fam].maxleaves   \* bound on number of leaf nodes
+Ops == Families[fam].ops               \* set of enabled constructor names
+LeafSet == Families[fam].leaves        \* enabled subset of 1..Len(LeafPool)
 
 Leaf(op, p, sh, dt, ix, lp) == [op |-> op, d |-> <<>>, p |-> p, sh |-> sh, dt |-> dt, ix |-> ix, lp |-> lp]
 Node(op, d, p, sh, dt, ix, lp) == [op |-> op, d |-> d, p |-> p, sh |-> sh, dt |-> dt, ix |-> ix, lp |-> lp]
@@ -63,7 +65,10 @@ LeafPool == <<
   Leaf("Arg", <<7>>, <<2, 2, 2>>, "f", 0, {}),                            \* 28 rank-3 argument
   Leaf("Const", <<0, 1, 1, 1, 1, 1, 0, 1>>, <<2, 2>>, "i", 2, {}),        \* 29 [[0,1],[1,0]] index matrix
   Leaf("Const", <<1, 1, 2, 1, 3, 1>>, <<3>>, "f", 0, {}),                 \* 30 [1., 2., 3.]
-  Leaf("Arg", <<8>>, <<3, 3>>, "f", 0, {})                                \* 31 3x3 argument
+  Leaf("Arg", <<8>>, <<3, 3>>, "f", 0, {}),                               \* 31 3x3 argument
+  Leaf("Const", <<1, 4>>, <<>>, "f", 0, {}),                              \* 32 .25
+  Leaf("Const", <<3, 1>>, <<>>, "f", 0, {}),                              \* 33 3.
+  Leaf("Const", <<-1, 1>>, <<>>, "f", 0, {})                              \* 34 -1.
 >>
 
 IsLeaf(n) == Len(n.d) = 0
@@ -77,7 +82,7 @@ Num(dt) == dt \in {"i", "f"}
 Rank(k) == Len(Nd(k).sh)
 LastLen(k) == Nd(k).sh[Rank(k)]
 
-Push(n) == nodes' = Append(nodes, n)
+Push(n) == nodes' = Append(nodes, n) /\ UNCHANGED fam
 
 \* operand choice: i ranges over all nodes, the last node must be among the operands
 Pairs == {<<i, j>> \in (1..L) \X (1..L) : i = L \/ j = L}
@@ -194,10 +199,10 @@ AddOp == /\ NOps < MaxOps
             \/ ARavelOp \/ AUnravelOp \/ ARavelIndexOp \/ AChooseOp \/ AInRangeOp \/ ALinalg \/ APolyvalOp
             \/ ALoopSumOp \/ ALoopConcatOp
 
-Init == nodes = <<>>
+Init == nodes = <<>> /\ fam \in 1..Len(Families)
 Next == /\ L < MaxNodes
         /\ (AddLeaf \/ AddOp)
-Spec == Init /\ [][Next]_nodes
+Spec == Init /\ [][Next]_<<nodes, fam>>
 
 \* ------------------------------------------------------------------ well-formedness of what is built
 Complete == L >= 1 /\ Nd(L).lp = {} /\ Unused = {L} /\ NOps >= EmitMin
@@ -213,5 +218,5 @@ IxSound == (Complete /\ Nd(L).ix > 0) =>
 
 Emit(x) == PrintT(<<"VF", ToJson(x)>>)
 JNode(n) == [op |-> n.op, d |-> n.d, p |-> n.p, sh |-> n.sh, dt |-> n.dt, ix |-> n.ix, cl |-> (n.lp = {})]
-EmitComplete == Complete => Emit([i \in 1..L |-> JNode(nodes[i])])
+EmitComplete == Complete => Emit([fam |-> fam, nodes |-> [i \in 1..L |-> JNode(nodes[i])]])
 =============================================================================
